@@ -111,6 +111,20 @@
 //! }
 //!
 
+#[cfg(feature = "verif-hooks")]
+macro_rules! verif_at {
+    ($p:ident, $w:expr) => {
+        crate::verif_hooks::at(crate::verif_hooks::Point::$p, $w)
+    };
+}
+#[cfg(not(feature = "verif-hooks"))]
+macro_rules! verif_at {
+    ($p:ident, $w:expr) => {};
+}
+
+#[cfg(feature = "verif-hooks")]
+pub mod verif_hooks;
+
 #[allow(clippy::mutable_key_type)]
 mod bucket;
 mod bytes;
